@@ -166,6 +166,19 @@ fn steps(input: &str, out: &str, maxsteps: usize, maxlimbs: usize, work: &str, j
     w.flush().unwrap();
 }
 
+/// a run that was cut (time limit or output cap) keeps only a short, well-formed prefix of its output:
+/// only prefix-compatibility can be claimed for it, and megabytes of looping output would swamp the traces
+fn clip(out: Vec<u8>, cut: bool) -> Vec<u8> {
+    if !cut || out.len() <= 4000 {
+        return out;
+    }
+    let head = &out[..4000];
+    match std::str::from_utf8(head) {
+        Ok(_) => head.to_vec(),
+        Err(e) => head[..e.valid_up_to()].to_vec(),
+    }
+}
+
 /// strip the tool's own log lines: everything up to and including the last leading line that
 /// starts with "==> " (the wording of the log lines is not relied upon)
 fn after_running(stdout: &[u8]) -> (Vec<u8>, bool) {
@@ -262,7 +275,10 @@ fn obs(input: &str, out: &str, hyeong: &str, levels: Vec<u8>, clevels: Vec<u8>, 
                 let mut cmd = Command::new(&hyeong);
                 cmd.args(["run", &format!("-O{}", l), "--color", "never", &file]);
                 let (o, e, code, timed_out) = run_proc(&mut cmd, stdin, to, 4 << 20);
+                let cut = timed_out || o.len() >= (4 << 20) || e.len() >= (4 << 20);
                 let (body, started) = after_running(&o);
+                let (body, e) = (clip(body, cut), clip(e, cut));
+                let timed_out = cut;
                 runs.push(json!({"how": format!("run-O{}", l), "stdout": lossy_cps(&body), "stderr": lossy_cps(&e), "code": code,
                                  "timeout": timed_out, "started": started,
                                  "panicked": String::from_utf8_lossy(&e).contains("panicked at")}));
@@ -273,6 +289,9 @@ fn obs(input: &str, out: &str, hyeong: &str, levels: Vec<u8>, clevels: Vec<u8>, 
                     Ok(bin) => {
                         let mut cmd = Command::new(bin);
                         let (o, e, code, timed_out) = run_proc(&mut cmd, stdin, to, 4 << 20);
+                        let cut = timed_out || o.len() >= (4 << 20) || e.len() >= (4 << 20);
+                        let (o, e) = (clip(o, cut), clip(e, cut));
+                        let timed_out = cut;
                         runs.push(json!({"how": format!("compiled-O{}", l), "stage": "run", "stdout": lossy_cps(&o), "stderr": lossy_cps(&e), "code": code,
                                          "timeout": timed_out, "panicked": String::from_utf8_lossy(&e).contains("panicked at")}));
                     }
